@@ -74,10 +74,14 @@ Definition attach_opt (u : option N) (v : vcall) : vcall :=
 
 Section Naming.
 Variables pascal snake kebab : bytes -> bytes.          (* the Inflector crate *)
-(* Which revision of the repository is modelled: [false] = the code as found (kept so that the refutations
-   of the naming theorems stay machine-checked and replayable), [true] = after the two `fix:` commits.
-   The flag is consulted in exactly two places: [tag_names] and [flatten_sg_ns]. *)
-Variable fixed : bool.
+(* Which revision of the code is modelled.  Two independent repairs, one flag each, each consulted in exactly
+   one place:
+     fixed_tag — the enum tag's four per-style names ([tag_names]): false = the code as found, true = after the
+                 repository's `fix:` commit (the state the correspondence runs against);
+     fixed_sg  — the namespace a flattened child's sample_group() gets ([flatten_sg_ns]): false = the code as it
+                 is (as found AND now: the repair needs two insta snapshots regenerated, so it is delivered as a
+                 known finding), true = the proposed repair (docs/C07-sample-group-repair.patch). *)
+Variables fixed_tag fixed_sg : bool.
 
 (* ---------------------------------------------------------------- inflect.rs *)
 Definition apply (s : style) (x : bytes) : bytes :=     (* NameStyle::apply *)
@@ -195,15 +199,15 @@ Definition tag_field_name_v0 (ra : style) (pfx : option prefix) (t : tag) : byte
        | None => apply ra (tg_name t)
        end.
 Definition tag_names (ra : style) (pfx : option prefix) (t : tag) : four :=
-  if fixed
+  if fixed_tag
   then mk4 (fun s => if tg_exact t then tg_name t else metric_name pfx s None (tg_name t))
   else mk4 (fun s => apply s (tag_field_name_v0 ra pfx t)).
 
 (* the namespace collect_field_sample_group / collect_tuple_sample_group hand to a flattened child.
-   As found: make_ns(rename_all) only — the flatten prefix is dropped; repaired: the same namespace the
+   As it is: make_ns(rename_all) only — the flatten prefix is dropped; proposed repair: the same namespace the
    write path uses. *)
 Definition flatten_sg_ns (p : option prefix) (n : ns) : ns :=
-  if fixed then append_to p n else n.
+  if fixed_sg then append_to p n else n.
 
 Definition named (c : cstr) (v : vcall) : item :=
   let r := const_str_value c in IValue (fst r) (snd r) v.
